@@ -12,6 +12,10 @@
 #include <string>
 #include <vector>
 #include <algorithm>
+#include <map>
+#include <mutex>
+#include <typeinfo>
+#include <unistd.h>
 
 #include <libcuckoo/cuckoohash_map.hh>
 
@@ -93,7 +97,18 @@ struct AllocCtl {
   static std::atomic<long> n_allocs;
   static std::atomic<long> fail_at;    // fail the allocation with this ordinal (1-based); 0 = never
   static std::atomic<size_t> max_elems; // element-count limit per allocation (hpLimit)
+  // where an injected failure is announced (K5 children: the pipe to the parent), so that a crash that follows can
+  // be attributed to the allocation that failed: "@<mangled element type>;"
+  static int &note_fd() { static int fd = -1; return fd; }
+  template <class T> static void note_fault() {
+    int fd = note_fd();
+    if (fd < 0) return;
+    std::string s = std::string("@") + typeid(T).name() + ";";
+    ssize_t r = ::write(fd, s.data(), s.size());
+    (void)r;
+  }
 };
+#ifndef VH_APOL
 template <class T> struct VAlloc {
   using value_type = T;
   VAlloc() noexcept {}
@@ -101,7 +116,7 @@ template <class T> struct VAlloc {
   T *allocate(size_t n) {
     long k = ++AllocCtl::n_allocs;
     long f = AllocCtl::fail_at.load();
-    if (f != 0 && k == f) throw std::bad_alloc();
+    if (f != 0 && k == f) { AllocCtl::note_fault<T>(); throw std::bad_alloc(); }
     if (n > AllocCtl::max_elems.load()) throw std::bad_alloc();
     AllocCtl::live_bytes += (long)(n * sizeof(T));
     return static_cast<T *>(::operator new(n * sizeof(T), std::align_val_t(alignof(T) > 16 ? alignof(T) : 16)));
@@ -113,6 +128,55 @@ template <class T> struct VAlloc {
   template <class U> bool operator==(const VAlloc<U> &) const noexcept { return true; }
   template <class U> bool operator!=(const VAlloc<U> &) const noexcept { return false; }
 };
+#else
+// Identity-carrying allocator for the allocator-policy streams (C11): instances compare by `id`, the three propagation
+// traits come from the bits of VH_APOL (1 = copy assignment, 2 = move assignment, 4 = swap), and every block remembers
+// which instance allocated it, so that a block returned through a different (unequal) instance is counted.
+struct AllocReg {
+  static std::mutex &mu() { static std::mutex m; return m; }
+  static std::map<const void *, int> &owner() { static std::map<const void *, int> m; return m; }
+  static std::atomic<long> &mismatches() { static std::atomic<long> n{0}; return n; }
+  static int owner_of(const void *p) {
+    std::lock_guard<std::mutex> lk(mu());
+    auto it = owner().find(p);
+    return it == owner().end() ? -1 : it->second;
+  }
+};
+template <class T> struct VAlloc {
+  using value_type = T;
+  using propagate_on_container_copy_assignment = std::integral_constant<bool, (VH_APOL & 1) != 0>;
+  using propagate_on_container_move_assignment = std::integral_constant<bool, (VH_APOL & 2) != 0>;
+  using propagate_on_container_swap = std::integral_constant<bool, (VH_APOL & 4) != 0>;
+  using is_always_equal = std::false_type;
+  int id = 0;
+  VAlloc() noexcept {}
+  explicit VAlloc(int i) noexcept : id(i) {}
+  template <class U> VAlloc(const VAlloc<U> &o) noexcept : id(o.id) {}
+  T *allocate(size_t n) {
+    long k = ++AllocCtl::n_allocs;
+    long f = AllocCtl::fail_at.load();
+    if (f != 0 && k == f) throw std::bad_alloc();
+    if (n > AllocCtl::max_elems.load()) throw std::bad_alloc();
+    AllocCtl::live_bytes += (long)(n * sizeof(T));
+    T *p = static_cast<T *>(::operator new(n * sizeof(T), std::align_val_t(alignof(T) > 16 ? alignof(T) : 16)));
+    std::lock_guard<std::mutex> lk(AllocReg::mu());
+    AllocReg::owner()[p] = id;
+    return p;
+  }
+  void deallocate(T *p, size_t n) noexcept {
+    AllocCtl::live_bytes -= (long)(n * sizeof(T));
+    {
+      std::lock_guard<std::mutex> lk(AllocReg::mu());
+      auto it = AllocReg::owner().find(p);
+      if (it == AllocReg::owner().end() || it->second != id) ++AllocReg::mismatches();
+      if (it != AllocReg::owner().end()) AllocReg::owner().erase(it);
+    }
+    ::operator delete(p, std::align_val_t(alignof(T) > 16 ? alignof(T) : 16));
+  }
+  template <class U> bool operator==(const VAlloc<U> &o) const noexcept { return id == o.id; }
+  template <class U> bool operator!=(const VAlloc<U> &o) const noexcept { return id != o.id; }
+};
+#endif
 
 // ---- digest (mirrors Driver.digest) ----
 inline uint64_t mix(uint64_t h, uint64_t x) { return (h ^ x) * 1099511628211ULL; }
